@@ -144,11 +144,52 @@ func genC40(g *Gen) {
 			return fmt.Sprintf("%s %d %s %s %s %s %s %d %s %d", Hex([]byte(pad(ch))), ct, Hex([]byte(pad(no))), Hex([]byte(pad(id))), Hex([]byte(pad(key))),
 				Hex([]byte(pad(tyName))), Hex([]byte(vis)), g.R.Intn(1000), c40GenPayload(g, ty), g.R.Intn(1000))
 		}
+		// current route as sent (generator bookkeeping only): leaders of Slot 1/2, owner per hash slot
+		l1, l2 := 1, 2
+		own := []byte("1111")
+		away := false
+		route := func() {
+			if away && g.R.Chance(75) {
+				// come back: node 1 leads everything again, possibly leaving migrated slots on Slot 2 led by node 1
+				l1 = 1
+				if g.R.Bool() {
+					own = []byte("1111")
+					l2 = 2
+				} else {
+					l2 = 1
+				}
+				away = false
+				g.Count("rt:back-to-local")
+			} else {
+				switch g.R.Pick(35, 45, 10, 10) {
+				case 0:
+					l1 = 2
+					g.Count("rt:slot-leader-away")
+				case 1:
+					// migrate one or two hash slots to Slot 2 (led by node 2 unless it was handed to node 1)
+					l2 = 2
+					for k := 0; k < g.R.Range(1, 2); k++ {
+						own[g.R.Intn(4)] = '2'
+					}
+					g.Count("rt:hashslot-migrated-away")
+				case 2:
+					l1, l2 = 2, 1
+					g.Count("rt:leaders-swapped")
+				default:
+					own[g.R.Intn(4)] = '1'
+					g.Count("rt:hashslot-migrated-home")
+				}
+				away = true
+			}
+			g.Op("rt", "%d %d %s", l1, l2, string(own))
+		}
 		nops := g.R.Range(15, 60)
 		for n := 0; n < nops; n++ {
 			m := msgs[g.R.Intn(nm)]
 			if node {
-				switch g.R.Pick(78, 7, 8, 7) {
+				switch g.R.Pick(74, 3, 8, 6, 9) {
+				case 4:
+					route()
 				case 0:
 					g.Op("nd", "%s", event(m, -1))
 				case 1:
